@@ -453,6 +453,8 @@ def install_market_ops():
             raise ContractViolation(F, "C04 an order leaves the book exactly when its volume reaches zero")
         if m._last_executed_prices[t] != price or m._executed_volumes[t] != c["ev"] + volume or abs(m._executed_total_prices[t] - (c["et"] + volume * price)) > 1e-9:
             raise ContractViolation(F, "C08 last-trade price / executed volume / turnover of the step grow by the fill")
+        if m._market_prices[t] != price:
+            raise ContractViolation(F, "C08 market price = last trade (right after the fill, before anything else happens)", dict(market_price=m._market_prices[t], fill_price=price))
         if (log.price, log.volume, log.time, log.buy_order_id, log.sell_order_id, log.buy_agent_id, log.sell_agent_id, log.market_id) != \
                 (price, volume, t, buy_order.order_id, sell_order.order_id, buy_order.agent_id, sell_order.agent_id, m.market_id):
             raise ContractViolation(F, "C01 the fill record pairs this buy and this sell order at the given price and volume")
